@@ -75,7 +75,7 @@ def run(F, chk):
     key_template_rule(F, chk)
     # ---------------- R-C20-c --------------------------------------------------
     rc = chk.rule("R-C20-c", "T5", "Config is built only past the H2 buffer test; pairing constraints have rejecting sites", floor=4)
-    ic = F.body(CFG + "ConfigBuilder::into_config")
+    ic = lib.flat(F, F.body(CFG + "ConfigBuilder::into_config"))     # private checks moved into helpers count as part of it
     rc.fn(ic.path)
     ok_rets = [(bi, si) for bi, si, s in ic.stmts() if s.get("rv", {}).get("k") == "agg" and s["rv"].get("adt") == "core::result::Result"
                and s["rv"].get("var") == "Ok" and s.get("lhs") == 0]
